@@ -25,6 +25,8 @@ func fieldsInCone(v ssa.Value, seen map[ssa.Value]bool, out map[string]bool, dep
 	seen[v] = true
 	rec := func(x ssa.Value) { fieldsInCone(x, seen, out, depth+1) }
 	switch x := v.(type) {
+	case *ssa.Parameter:
+		out["param:"+x.Name()] = true
 	case *ssa.UnOp:
 		rec(x.X)
 	case *ssa.FieldAddr:
@@ -59,8 +61,29 @@ func fieldsInCone(v ssa.Value, seen map[ssa.Value]bool, out map[string]bool, dep
 		for _, e := range x.Edges {
 			rec(e)
 		}
+		// control dependence: which edge is taken is decided by the branch conditions between the phi's immediate
+		// dominator and its predecessors (e.g. `ok := true; for … { if !cond(x) { ok = false } }`)
+		if b := x.Block(); b != nil && b.Idom() != nil {
+			stop := b.Idom()
+			for _, p := range b.Preds {
+				for cur := p; cur != nil && cur != stop; cur = cur.Idom() {
+					if n := len(cur.Instrs); n > 0 {
+						if iff, ok := cur.Instrs[n-1].(*ssa.If); ok {
+							rec(iff.Cond)
+						}
+					}
+				}
+				if n := len(stop.Instrs); n > 0 {
+					if iff, ok := stop.Instrs[n-1].(*ssa.If); ok {
+						rec(iff.Cond)
+					}
+				}
+			}
+		}
 	case *ssa.Extract:
 		rec(x.Tuple)
+	case *ssa.TypeAssert:
+		rec(x.X)
 	case *ssa.BinOp:
 		rec(x.X)
 		rec(x.Y)
@@ -362,6 +385,30 @@ func runUnguardedRules(p *Program, id string) ([]*Gen, []string) {
 							}
 						}
 					}
+					// forbidden provenance of a stored value (valuenot=pat | pat)
+					if vp := kv["valuenot"]; vp != "" {
+						if st, isStore := in.(*ssa.Store); isStore {
+							got := valuePath(st.Val)
+							for _, alt := range splitList(vp, "|") {
+								if pathMatches(got, alt) {
+									o.Pre = "sat"
+									o.Model = "the stored value is " + got + ", which must not be " + alt
+								}
+							}
+						}
+					}
+					// forbidden origin of a stored value (value-not-from=<parameter>): the parameter must not be in the
+					// backward data cone of the stored value
+					if vf := kv["value-not-from"]; vf != "" {
+						if st, isStore := in.(*ssa.Store); isStore {
+							cone := map[string]bool{}
+							fieldsInCone(st.Val, map[ssa.Value]bool{}, cone, 0)
+							if cone["param:"+vf] {
+								o.Pre = "sat"
+								o.Model = "the stored value " + valuePath(st.Val) + " is computed from parameter " + vf
+							}
+						}
+					}
 					// required map operand of a lookup
 					if mp := kv["mappath"]; mp != "" {
 						if lk, isLk := in.(*ssa.Lookup); isLk {
@@ -394,6 +441,21 @@ func runUnguardedRules(p *Program, id string) ([]*Gen, []string) {
 							if !okAlt {
 								o.Pre = "sat"
 								o.Model = fmt.Sprintf("argument %d is %s, expected %s", an, got, parts[1])
+							}
+						}
+					}
+					// forbidden argument provenance (argnot=N:pat OR pat): the argument must match none of the alternatives
+					for _, ap := range splitList(kv["argnot"], "|") {
+						parts := strings.SplitN(ap, ":", 2)
+						var an int
+						fmt.Sscanf(parts[0], "%d", &an)
+						if c, isCall := in.(*ssa.Call); isCall && len(parts) == 2 && an < len(c.Call.Args) {
+							got := valuePath(c.Call.Args[an])
+							for _, alt := range strings.Split(parts[1], " OR ") {
+								if pathMatches(got, strings.TrimSpace(alt)) {
+									o.Pre = "sat"
+									o.Model = fmt.Sprintf("argument %d is %s, which must not be %s", an, got, strings.TrimSpace(alt))
+								}
 							}
 						}
 					}
